@@ -13,6 +13,7 @@ Lemma max_age_agrees : Constants.MAX_TEMP_FILE_AGE_SEC = Pinned.MAX_TEMP_FILE_AG
 Lemma plain_scale_agrees : Constants.PLAIN_MAINTENANCE_SCALE = Pinned.PLAIN_MAINTENANCE_SCALE. Proof. reflexivity. Qed.
 Lemma reserved_agrees : Constants.RESERVED_FIRST_BYTES = Pinned.RESERVED_FIRST_BYTES. Proof. reflexivity. Qed.
 Lemma empty_rejected : Constants.EMPTY_NAME_REJECTED = true. Proof. reflexivity. Qed.
+Lemma separator_rejected : Constants.SEPARATOR_REJECTED = true. Proof. reflexivity. Qed.
 Lemma reduce_shift_agrees : Constants.REDUCE_SHIFT = Pinned.REDUCE_SHIFT. Proof. reflexivity. Qed.
 
 (** Side conditions on constants the properties leave free. *)
